@@ -38,6 +38,9 @@ fn main() {
                 hid += 1;
                 let lines: Vec<String> = if v["do"].as_str() == Some("hist") {
                     hist::run_history(&v, hid)
+                } else if v["do"].as_str() == Some("cscript") {
+                    let script: Vec<String> = v["lines"].as_array().map(|a| a.iter().map(|x| vstr(x)).collect()).unwrap_or_default();
+                    cabi::run_script_native(&script)
                 } else {
                     match exec::run_line(&v) {
                         Some(o) => vec![o],
